@@ -161,13 +161,13 @@ bool_t mtCallOnce(size_t* once, void (*fn)())
 		if ((t = mtAtomicCmpSwap(once, 0, SIZE_MAX)) == 0)
 		{
 			// ... да, обработать захват
-			fn(), *once = 1;
+			fn(), mtAtomicCmpSwap(once, SIZE_MAX, 1);
 			break;
 		}
 	// ... нет, ожидаем обработки захвата в другом потоке
 	while (t == SIZE_MAX);
 	// завершить
-	ASSERT(*once == 1);
+	ASSERT(mtAtomicCmpSwap(once, 1, 1) == 1);
 	return TRUE;
 }
 
